@@ -71,8 +71,10 @@ class Run(object):
     def log(self, **kw):
         if not self.frozen:
             self.ev.append(kw)
-            if len(self.ev) > self.max_events:
+            if len(self.ev) > self.max_events and not getattr(self, '_tripped', False):
+                self._tripped = True
                 self.frozen = True
+                del self.ev[400:]    # the verdict is "never finishes": a prefix is enough (and keeps the batch small)
                 raise Livelock()     # the code under test keeps producing events without ever finishing
 
     def _freeze(self):
@@ -173,15 +175,28 @@ class Run(object):
             return (e[1], e[2]) in self.pending
         if k == 'src':
             return self.src_fut is not None and not self.src_fut.done()
+        if k == 'batch':
+            return all(self.enabled(x) for x in e[1])
         return True
 
     def fire(self, e):
         k = e[0]
+        if k == 'batch':
+            # several commands delivered within ONE step of the event loop (e.g. resume and stop from one callback)
+            self.fired.append([k, [list(x) for x in e[1]]])      # (recorded as one command: a replay delivers it as one)
+            self._in_batch = True
+            try:
+                for x in e[1]:
+                    self.fire(list(x))
+            finally:
+                self._in_batch = False
+            return
         if k in ('stop', 'setc') and self.p._producer_task is None:
             return    # process() has not started yet: not "while running" (DESIGN 7)
         if k == 'setc' and e[1] == self.p.concurrency:
             return    # no change: not an event
-        self.fired.append(e)
+        if not getattr(self, '_in_batch', False):
+            self.fired.append(e)
         if k == 'src':
             self.src_fut.set_result(None)
         elif k == 'body':
@@ -218,6 +233,11 @@ class Run(object):
             for c in range(0, b.get('cmax', 0) + 1):
                 if c != self.p.concurrency:
                     out.append(['setc', c])
+        if b.get('batch') and b.get('stop', 0) > self.n_stop and b.get('conc', 0) > self.n_conc and self.p.concurrency == 0:
+            # paused: a resume and a stop request arriving together, in both orders
+            for c in range(1, b.get('cmax', 0) + 1):
+                out.append(['batch', [['setc', c], ['stop']]])
+                out.append(['batch', [['stop'], ['setc', c]]])
         if b.get('raise_', 0) > self.n_raise:
             out += [['braise', i, j] for (i, j) in self.pending_order]
             if not self.arm_sraise:
